@@ -77,6 +77,19 @@ fn pick_qty(r: &mut Rng, exact: bool) -> (i64, u32) {
 
 pub const EQUITY: usize = 2;
 
+/// `DATE=EFFECTIVE` in the header of a transaction: later than the date (the value date of a
+/// card payment), earlier, or the same day; most transactions have none.  Rates stated or
+/// implied by the transaction and the date its postings are converted at stay at DATE.
+pub fn pick_effective(r: &mut Rng, date: i32, span: i64) -> Option<i32> {
+    let far = span.max(2) as u64 + 2;
+    match r.below(9) {
+        0 | 1 => Some(date + 1 + r.below(far) as i32),
+        2 => Some(date - 1 - r.below(far) as i32),
+        3 => Some(if r.chance(1, 2) { date } else { date + 1 }),
+        _ => None,
+    }
+}
+
 /// `rich`: more holdings, format declarations and values that need rounding (C10)
 pub fn gen_price_case(r: &mut Rng, exact: bool, rich: bool) -> PriceCase {
     let ncomm = 2 + r.below(4) as usize;
@@ -205,7 +218,7 @@ pub fn gen_price_case(r: &mut Rng, exact: bool, rich: bool) -> PriceCase {
                 }
             }
         };
-        entries.push(Entry::Txn(Txn { date, posts }));
+        entries.push(Entry::Txn(Txn { effective: pick_effective(r, date, span), date, posts }));
     }
     // plain holdings without a price, also in commodities no price mentions
     let nhold = if rich { 1 + r.below(4) } else { r.below(2) };
@@ -220,6 +233,7 @@ pub fn gen_price_case(r: &mut Rng, exact: bool, rich: bool) -> PriceCase {
         let acct = *r.pick(&[0usize, 1, 3, 4, 5]);
         let other = if rich { *r.pick(&[0usize, 1, 2, 2, 3]) } else { EQUITY };
         entries.push(Entry::Txn(Txn {
+            effective: pick_effective(r, date.max(0), span),
             date: date.max(0),
             posts: vec![
                 Posting { account: acct, amount: Some(lit(m, s, c)), cost: None, lot: None, balance: None },
